@@ -1,12 +1,17 @@
 """Per-property job tables for ./check: which build configurations run which worker workloads,
-with what budgets (cases per shard), for the quick and the thorough tier."""
+with what budgets (cases per shard), for the quick and the thorough tier; plus the texts that
+go into MANIFEST.json and the evidence files."""
 
-SETUP_CONFIGS = ["std-rel", "std-dbg", "portable-rel", "portable-dbg", "nounroll-rel"]
+SETUP_CONFIGS = ["std-rel", "std-dbg", "portable-rel", "portable-dbg", "nounroll-rel", "asan", "miri-build"]
 
 HOOK_COMMITS = ["0eb0db3", "aa9cd32"]
 NOT_APPLICABLE = {}
 
 NOSTD = ["nostd-sse2", "nostd-ssse3", "nostd-sse41", "nostd-avx", "nostd-avx2"]
+
+REF = "independent reference models written from the specifications (self-tested against published vectors / NIST KATs at every worker start; a failing self-test is INCONCLUSIVE)"
+FORCE = "forcing a dispatch level through hook H1 executes the same functions a CPU whose best feature is that level would execute"
+SAMPLED = "keys, messages and operands are sampled (boundary-biased), not enumerated; the claim covers the executions listed in the evidence"
 
 
 def J(prop, config, shards, budget, timeout=1800, **extra):
@@ -15,23 +20,137 @@ def J(prop, config, shards, budget, timeout=1800, **extra):
                  args=dict(shard="%d/%d" % (i, shards), budget=budget, **extra)) for i in range(shards)]
 
 
+def P(technique, level_text, level_note, rule, min_evals, assumptions, primary=("std-rel",), require_classes=(), level="exploration"):
+    return dict(level=level, technique=technique, level_text=level_text, level_note=level_note, rule=rule,
+                min_evals=dict(quick=min_evals[0], thorough=min_evals[1]), assumptions=list(assumptions),
+                primary=list(primary), require_classes=list(require_classes))
+
+
 PROPS = {
-    "C01": dict(
-        level="exploration",
-        technique="runtime differential monitor: real seek+apply_keystream vs independent reference ChaCha, canary-checked, across forced SIMD backends and debug/release/portable/no-std/ASan builds",
-        level_text="Exploration: every executed (type, backend, key, nonce, position, length) case is compared byte-for-byte with an independent, "
-                   "self-tested reference ChaCha; boundary-biased sampling of positions/lengths, all six dispatch levels forced through hook H1. Not exhaustive over keys.",
-        level_note="Trusts the reference model (self-tested against published vectors on every start) and that forcing a dispatch level reproduces what a CPU with that best feature executes.",
-        primary=["std-rel"],
-        rule="cases = (cipher type, forced backend, key/nonce pattern seed, absolute position, length) drawn with boundary bias "
-             "(every pos mod 64; block indices 0..4, 2^32+-5, last blocks of the stream, random); one evaluation = one "
-             "seek+apply_keystream compared byte-for-byte with the reference ChaCha and canary-checked; distinct = distinct "
-             "descriptor, non-trivial = length >= 1",
-        min_evals=dict(quick=50000, thorough=1000000),
-        require_classes=["posmod64=0", "posmod64=63"],
-        assumptions=["reference ChaCha model (self-tested against RFC 7539, draft-irtf-cfrg-xchacha and the ChaCha8/12/20 TC1 vectors at every start)",
-                     "keys/nonces/positions are sampled, not enumerated"],
-    ),
+    "C01": P(
+        "runtime differential monitor: real seek+apply_keystream vs reference ChaCha, canary-checked, on all forced SIMD backends and debug/release/portable/no-std/ASan builds",
+        "Exploration: every executed (type, backend, key, nonce, position, length) case is compared byte-for-byte with an independent reference ChaCha; "
+        "boundary-biased sampling of positions and lengths, all six dispatch levels forced through hook H1.",
+        "Trusts the reference model and the forcing hook; keys/nonces/positions are sampled.",
+        "case = (cipher type, forced backend, key/nonce pattern seed, absolute position, length), drawn with boundary bias (every pos mod 64; block indices 0..4, 2^32+-5, "
+        "the last blocks of the stream, random); one evaluation = one seek+apply_keystream compared with the reference and canary-checked; distinct = distinct descriptor, "
+        "non-trivial = length >= 1",
+        (50000, 1000000), [REF, FORCE, SAMPLED], require_classes=["posmod64=0", "posmod64=63"]),
+    "C02": P(
+        "runtime history monitor: random seek/apply/re-apply/current_pos histories checked op by op against a shadow position model + reference keystream, debug and release",
+        "Exploration of histories: each op's return value, every produced byte and the reported position are decided by a 15-line shadow model (absolute position, stream limit) and the reference keystream.",
+        "Trusts the reference model; histories are sampled with bias to mid-block seeks, block/stream boundaries and every SeekNum type.",
+        "case = one history of 1..40 ops over {seek(T,p), apply(n), re-apply at the same position, current_pos::<T>} on one cipher instance; evaluations = ops whose outcome the model decided; "
+        "distinct = distinct history descriptor, non-trivial = at least 2 ops of 2 different kinds",
+        (200000, 5000000), [REF, SAMPLED, "positions beyond 2^64 on 64-bit-counter ciphers are outside the property's wording: either outcome is accepted there"],
+        primary=("std-rel", "std-dbg"), require_classes=["state=pending", "state=buffered", "state=empty"]),
+    "C03": P(
+        "runtime differential monitor over build configurations: one seeded transcript executed on every forced backend of every build (std dispatch, portable, five no-std arms) vs reference models, plus cross-configuration digest comparison",
+        "Exploration: the same transcript (ChaCha wide+narrow, BLAKE x4, JH digests, JH F8) is run in 7+ build configurations and 6 forced dispatch levels; each output is compared with the reference and the rolling digests of all configurations are cross-checked.",
+        "Trusts the reference models, hook H1 and that -Ctarget-feature selects the no-std arm named in the evidence.",
+        "case = (algorithm kind, seed) x (configuration, forced backend); one evaluation = one output compared with the reference; distinct = distinct (case, backend) descriptor; every cell of the configuration x backend x algorithm matrix must be non-zero",
+        (20000, 400000), [REF, FORCE, SAMPLED], primary=("std-rel", "portable-rel"),
+        require_classes=["matrix/std-dispatch-rel/sse2/blake", "matrix/std-dispatch-rel/avx2/chacha", "matrix/std-dispatch-rel/ssse3/jh", "matrix/portable-rel/auto/blake", "matrix/std-dispatch-rel/sse41/jh-f8", "matrix/std-dispatch-rel/avx/chacha"]),
+    "C04": P(
+        "runtime differential monitor: Digest::digest vs reference BLAKE over every length 0..3*block+8 and random messages, all forced backends, debug/release/portable",
+        "Exploration: every digest computed is compared with an independent scalar BLAKE (own constants computed from pi / square roots).",
+        "Trusts the reference BLAKE (checked against the BLAKE submission vectors).",
+        "case = (variant, forced backend, length, content pattern); systematic sweep of every length 0..3*bs+8 x 3 contents partitioned over shards, then random lengths up to 20 KB; distinct = distinct descriptor (all have a distinct message)",
+        (20000, 500000), [REF, FORCE, SAMPLED], require_classes=["Blake384/", "Blake512/", "Blake224/", "Blake256/"]),
+    "C05": P(
+        "runtime differential monitor: 81 Skein instantiations (27 output sizes x 3 state sizes) vs reference UBI/Threefish, every length 0..3*block+8 and random messages",
+        "Exploration: every digest is compared with an independent Skein 1.3 built on an independent Threefish (forward permutation, own rotation table).",
+        "Trusts the reference Skein (checked against the Skein 1.3 KATs and Threefish submission vectors). N is a type parameter: 27 values are instantiated.",
+        "case = (state size, N, length, content pattern); systematic sweep over lengths for 8 values of N per state size, random for all 27; distinct = distinct descriptor",
+        (20000, 500000), [REF, SAMPLED, "output sizes outside the instantiated menu of 27 values are not executed"]),
+    "C06": P(
+        "runtime differential monitor: JH digests and single F8 compressions (public Compressor and f8_impl::<M> on every machine) vs nibble-oriented reference E8",
+        "Exploration: digests over every length 0..200 and random; F8 on random and one-hot/one-flip (state, block) pairs on every backend, compared with the specification-shaped (non-bit-sliced) reference.",
+        "Trusts the reference JH (round constants generated, IVs derived; checked against the NIST KATs).",
+        "case = digest (variant, backend, length, pattern) or F8 (path, backend, seed, one-hot bit); distinct = distinct descriptor",
+        (15000, 300000), [REF, FORCE, SAMPLED], require_classes=["f8/f8_impl<", "f8/compressor-"]),
+    "C07": P(
+        "runtime differential monitor: Groestl digests vs byte-matrix reference over every length 0..3*block+8, the <=8-bytes-left boundary, 255/256/257-block messages and random",
+        "Exploration: every digest is compared with an independent byte-matrix Groestl (S-box computed, MixBytes by field multiplication).",
+        "Trusts the reference Groestl (checked against the NIST KATs). Only the AES-NI path is reachable on this host.",
+        "case = (variant, length, content pattern); distinct = distinct descriptor",
+        (10000, 200000), [REF, SAMPLED, "groestl's ssse3/sse2 fallback modules are not executed (autodetection always picks `aes` here)"],
+        require_classes=["Groestl224/extra-padding-block", "Groestl512/extra-padding-block"]),
+    "C08": P(
+        "runtime history monitor: random update/clone/reset/finalize_reset/finalize histories over 15 hash types, each instance shadowed by the bytes fed to it; digests vs reference and one-shot",
+        "Exploration of histories: at every finalize the digest must equal the reference digest of the shadow bytes and the implementation's own one-shot digest.",
+        "Trusts the reference models; piece lengths are biased to buffer boundaries.",
+        "case = one history of 2..24 ops over up to 4 live clones of one hash type; evaluations = finalizations compared; distinct = distinct history, non-trivial = >= 3 ops and at least one of clone/reset/finalize_reset/empty piece",
+        (20000, 400000), [REF, SAMPLED], primary=("std-rel", "std-dbg")),
+    "C09": P(
+        "runtime differential monitor: Threefish encrypt_block vs reference Threefish, unrolled and no_unroll builds, debug and release",
+        "Exploration: every ciphertext is compared with an independent Threefish (forward permutation pi, own tables).",
+        "Trusts the reference Threefish (checked against the NIST-submission vectors).",
+        "case = (block size, operand kind {zero, ones, one-hot, carry words, random}, seed, new()/with_tweak); distinct = distinct descriptor",
+        (100000, 5000000), [REF, SAMPLED], primary=("std-rel", "nounroll-rel"), require_classes=["config=no_unroll-rel", "config=unrolled-rel"]),
+    "C10": P(
+        "runtime round-trip + differential monitor: decrypt(encrypt(x)) = x, encrypt(decrypt(x)) = x and decrypt vs the reference inverse, unrolled and no_unroll",
+        "Exploration: both composition orders on the real code plus comparison of decrypt_block with an independently derived inverse.",
+        "Trusts the reference inverse (derived step by step from the reference encryption).",
+        "case as C09; 3 evaluations per case (two round trips, one differential)",
+        (100000, 5000000), [REF, SAMPLED], primary=("std-rel", "nounroll-rel"), require_classes=["config=no_unroll-rel", "config=unrolled-rel"]),
+    "C11": P(
+        "runtime history monitor concentrated at 0, 2^32 blocks, 2^38 bytes and 2^64 bytes: limit-aware shadow model with post-conditions after every failing call",
+        "Exploration of histories near the limits: exhaustion must be an error that leaves data, position and cipher intact; requests ending exactly at the limit succeed; no wrap.",
+        "Trusts the reference model; same engine as C02 with a generator aimed at the boundaries.",
+        "case = one history (as C02) with positions within a few blocks of the boundaries and request lengths ending 1 short of / at / past the limit, all seek types and out-of-range values",
+        (200000, 5000000), [REF, SAMPLED], primary=("std-rel", "std-dbg"), require_classes=["state=pending/ietf-end", "seekty=u128/out-of-range", "seekty=i32/out-of-range"]),
+    "C12": P(
+        "runtime table monitor: every (machine, vector type, operation) triple required by the Machine trait bounds evaluated on structured + one-hot + random operands against a scalar lane model",
+        "Exploration per triple; for the bit-permutation operations (rotates, shuffles, swaps, bswap) all one-hot inputs plus zero are evaluated, which determines a linear operation completely.",
+        "Trusts the scalar lane model (plain integer arithmetic). Machines are instantiated inside #[target_feature] wrappers on an AVX2 host.",
+        "case = (machine, type, op) with a seeded operand batch; evaluations = operands; distinct = distinct (machine, type, op, seed); the count of triples exercised is reported",
+        (200000, 5000000), ["scalar lane model", SAMPLED], primary=("std-rel", "portable-rel")),
+    "C13": P(
+        "runtime table monitor: every construction / read-back path (lanes, storage views, insert/extract at every index, transpose4, to_scalars, LE/BE byte I/O, vzip) against little-endian packing",
+        "Exploration per (machine, type, path) with position-revealing byte patterns, one-hot and random values.",
+        "Trusts the lane model; storage views offered by only one backend are checked where offered.",
+        "case = (machine, type, path) with a seeded batch; evaluations = values moved",
+        (50000, 1000000), ["scalar lane model", SAMPLED], primary=("std-rel", "portable-rel")),
+    "C14": P(
+        "runtime differential monitor on the block API: refill4 vs 4 x refill (bytes and state) vs reference block with 0..10 double rounds, counters at every carry position, all forced backends, debug and release",
+        "Exploration: pairwise (wide vs narrow) and against the reference block function with a 64-bit counter.",
+        "Trusts the reference block function.",
+        "case = (backend, key seed, nonce size, counter, stream id, double rounds); counters drawn around 0, 2^32 (carry in each of the four lanes) and 2^64",
+        (50000, 2000000), [REF, FORCE, SAMPLED], primary=("std-rel", "std-dbg"), require_classes=["c14/sse2/lowword-near-2^32", "c14/avx2/ctr-near-2^64"]),
+    "C15": P(
+        "runtime history monitor on the block API: set/get/refill/refill4/stream-equality ops against a model state (key words, four d words) and model predicates",
+        "Exploration of set/refill histories and state pairs differing in exactly one bit of one of the 12 words.",
+        "Trusts the model predicates (transcribed from the property statement).",
+        "case = one history of 2..19 ops; evaluations = ops",
+        (50000, 2000000), [REF, SAMPLED], primary=("std-rel", "std-dbg"), require_classes=["c15/eq/key-word", "c15/eq/d1-counter-high", "c15/eq/d0-counter-low"]),
+    "C16": P(
+        "fault monitor: OS guard pages (mmap/mprotect) around every byte-slice argument at every alignment with inputs sealed read-only, plus ASan, Miri (Stacked Borrows) and valgrind memcheck runs of the same workload",
+        "Exploration: a single byte read or written outside a slice, an aligned access to an unaligned address or a write to an input faults and kills the worker, which the driver attributes to the announced case; results also compared with the reference.",
+        "Guard pages see accesses before the first / after the last byte; in-slice misbehaviour is covered by the result comparison. ASan/Miri/memcheck as configured in DESIGN section 5.",
+        "case = (API family, algorithm/machine, backend, seed, length, placement {tail, head, interior offset 0..63}); distinct = distinct descriptor",
+        (100000, 3000000), [REF, "guard pages detect out-of-slice accesses only at page granularity on the far side (head placement protects the front, tail placement the back)"],
+        require_classes=["cipher/", "hash/", "tf/", "vec/", "f8/", "refill/", "hash/align=1", "cipher/align=63"]),
+    "C17": P(
+        "invariant-at-hook monitor (H2 counter conservation during real streaming across 2^8/2^16 blocks and 2^32 bits) + fast-forward differential against reference models with settable counters",
+        "Exploration: counters are observed after every update of real multi-hundred-MiB streams, and boundary crossings beyond what can be streamed are reached by overwriting both the implementation's and the reference's counter.",
+        "Fast-forwarding assumes the hash state depends on the past only through (chaining value, counter, buffer), which is what the formats define.",
+        "case = one real stream (hash, total, piece size) or one fast-forward (hash, k real blocks, counter value, tail length); evaluations = update calls observed / fast-forward digests compared",
+        (3000, 60000), [REF, "between 2^32 and the format limits the counter is reached by hook H2, not by hashing exabytes"],
+        require_classes=["stream/Groestl224", "stream/Blake256", "ff/Blake-bs128/2^64-bits-low-word-carry", "ff/Groestl-bs64/2^32-blocks", "ff/Skein-bs64/2^32-bytes", "ff/Jh-bs64/2^32-bits"]),
+    "C18": P(
+        "cold-process thread stress with barrier-released first calls compared with reference results; ThreadSanitizer build and Miri data-race detector (many seeds) on the same worker; interleaved-instances shadow check",
+        "Exploration of schedules: each trial is a fresh process in which T threads make their first calls concurrently (lockstep or random order); the evidence counts entry points that were really entered concurrently.",
+        "Race detection is limited to what TSan / Miri intercept and to schedules that occurred; weak-memory outcomes beyond x86-TSO / Miri's model are out of reach.",
+        "case = one cold process (threads, order mode, seed) or one interleaving of up to 12 instances; evaluations = results compared; distinct_nontrivial = distinct observed before/after interleavings of concurrent first calls at a one-time-initialised entry point",
+        (20000, 1000000), [REF, "schedules are sampled by the OS / Miri scheduler, not enumerated"],
+        require_classes=["first-call-overlap/Groestl256/", "interleave/instances="]),
+    "C19": P(
+        "runtime table monitor: every public method of the five ppv-null types against plain wrapping scalar arithmetic, debug (overflow-checked) and release",
+        "Exploration per (type, method) on zero / all-ones / one-hot / MAX+1 / random operands and every rotation amount 1..bits-1.",
+        "Trusts plain scalar arithmetic.",
+        "case = (type, method) with a seeded batch; evaluations = operand tuples",
+        (50000, 2000000), ["plain wrapping scalar arithmetic as the oracle", SAMPLED], primary=("std-rel", "std-dbg")),
 }
 
 
@@ -47,7 +166,193 @@ def jobs(pid, tier, seed):
             for c in NOSTD:
                 js += J(pid, c, 2, 200000)
             js += J(pid, "asan", 4, 50000)
+    elif pid in ("C02", "C11"):
+        js += J(pid, "std-rel", 6, 4000 if q else 300000)
+        js += J(pid, "std-dbg", 6, 3000 if q else 100000)
+        js += J(pid, "portable-rel", 2, 2000 if q else 100000)
+        js += J(pid, "portable-dbg", 2, 1000 if q else 30000)
+        if not q:
+            js += J(pid, "asan", 2, 20000)
+            js += J(pid, "miri", 4, 6, timeout=3600)
+    elif pid == "C03":
+        n = 600 if q else 12000
+        for c in ["std-rel", "portable-rel"] + NOSTD + ([] if q else ["std-dbg", "portable-dbg"]):
+            js += J(pid, c, 4, n)
+    elif pid in ("C04", "C05", "C06", "C07"):
+        big = pid in ("C04", "C05")
+        js += J(pid, "std-rel", 8, (3000 if big else 1500) if q else (60000 if big else 25000))
+        js += J(pid, "std-dbg", 4, (1000 if big else 500) if q else (15000 if big else 6000))
+        if pid in ("C04", "C06"):
+            js += J(pid, "portable-rel", 2, 1000 if q else 15000)
+            if not q:
+                for c in NOSTD:
+                    js += J(pid, c, 1, 8000)
+        if pid == "C05":
+            js += J(pid, "nounroll-rel", 2, 1500 if q else 20000)
+        if not q:
+            js += J(pid, "asan", 2, 4000)
+            js += J(pid, "miri", 4, 6, timeout=3600)
+    elif pid == "C08":
+        js += J(pid, "std-rel", 8, 1500 if q else 30000)
+        js += J(pid, "std-dbg", 4, 800 if q else 10000)
+        js += J(pid, "portable-rel", 2, 800 if q else 10000)
+        if not q:
+            js += J(pid, "asan", 2, 3000)
+            js += J(pid, "miri", 4, 3, timeout=3600)
+    elif pid in ("C09", "C10"):
+        js += J(pid, "std-rel", 6, 12000 if q else 1500000)
+        js += J(pid, "std-dbg", 3, 6000 if q else 300000)
+        js += J(pid, "nounroll-rel", 4, 12000 if q else 1500000)
+        if not q:
+            js += J(pid, "nounroll-dbg", 3, 300000)
+            js += J(pid, "miri", 2, 6, timeout=3600)
+    elif pid in ("C12", "C13"):
+        n = 1000 if q else 12000
+        js += J(pid, "std-rel", 5, n)
+        js += J(pid, "std-dbg", 5, n // 2)
+        js += J(pid, "portable-rel", 1, n)
+        js += J(pid, "portable-dbg", 1, n // 2)
+        if not q:
+            js += J(pid, "std-rel", 10, n)  # more operand seeds
+            js += J(pid, "miri", 1, 8, timeout=3600)
+    elif pid in ("C14", "C15"):
+        js += J(pid, "std-rel", 6, 10000 if q else 400000)
+        js += J(pid, "std-dbg", 6, 5000 if q else 100000)
+        js += J(pid, "portable-rel", 2, 4000 if q else 100000)
+        js += J(pid, "portable-dbg", 2, 2000 if q else 30000)
+        if not q:
+            for c in NOSTD:
+                js += J(pid, c, 1, 100000)
+    elif pid == "C16":
+        js += J(pid, "std-rel", 10, 12000 if q else 300000)
+        js += J(pid, "portable-rel", 2, 6000 if q else 100000)
+        js += J(pid, "std-dbg", 2, 4000 if q else 50000)
+        js += J(pid, "asan", 2, 4000 if q else 100000)
+        js += J(pid, "miri", 2 if q else 8, 10 if q else 24, timeout=3600)
+        if not q:
+            js += J(pid, "valgrind", 4, 3000, timeout=3600)
+            for c in NOSTD:
+                js += J(pid, c, 1, 50000)
+    elif pid == "C17":
+        # streams are partitioned over the shards of the std-rel job; fast-forward everywhere
+        js += J(pid, "std-rel", 12 if q else 18, 300 if q else 5000, timeout=3600)
+        js += J(pid, "std-dbg", 4, 300 if q else 5000, streams=0)
+        js += J(pid, "portable-rel", 2, 200 if q else 2000, streams=0)
+    elif pid == "C18":
+        js += J(pid, "std-rel", 120 if q else 6000, 150 if q else 300, timeout=600)
+        js += J(pid, "std-dbg", 24 if q else 600, 60, timeout=600)
+        js += J(pid, "tsan", 16 if q else 600, 40, timeout=900)
+        mj = J(pid, "miri", 1 if q else 4, 1, timeout=3600, part="threads")
+        for k, j in enumerate(mj):
+            j["env"] = {"MIRIFLAGS": "-Zmiri-many-seeds=%d..%d" % (64 * k, 64 * k + (12 if q else 64))}
+        js += mj
+    elif pid == "C19":
+        n = 2000 if q else 40000
+        js += J(pid, "std-dbg", 6, n)
+        js += J(pid, "std-rel", 6, n)
+        if not q:
+            js += J(pid, "miri", 1, 12, timeout=3600)
     for j in js:
         j["args"]["seed"] = seed
         j["args"]["tier"] = tier
     return js
+
+
+# ------------------------------------------------------------------------------------------
+# C20: the declared feature lattice (exhaustive) + per-configuration conformance (runtime)
+
+PROPS["C20"] = P(
+    "monitor over build executions: cargo check of the complete declared feature lattice of all 9 crates (44 effective feature sets, guard off) + the same conformance transcript vs reference models in every semantically distinct runtime configuration",
+    "The build lattice is a finite space and is enumerated completely; the runtime half is an exploration: std dispatch, two no-std compile-time arms, no_simd and no_unroll builds all run one transcript against the reference models.",
+    "A successful `cargo check` on the stable toolchain for x86-64 is taken as 'compiles'. The rustcrypto_api feature only adds a module; results with it off are covered through the guts API (C14/C15).",
+    "lattice point = (crate, effective feature set) for every subset of the crate's declared features with default features off (44 points; observation = cargo exit status); "
+    "conformance case = (algorithm, parameters) compared with the reference in each configuration; distinct_nontrivial = distinct conformance cases + non-default lattice points",
+    (2000, 40000), [REF, "stable toolchain, x86-64 target, offline registry"], primary=("std-rel",),
+    require_classes=["conformance/std-dispatch-rel/", "conformance/portable-rel/", "conformance/nostd-sse2-rel/", "conformance/std-dispatch-rel+no_unroll/"])
+
+LATTICE = {
+    # crate: (manifest dir under /repo, declared features excluding `default`)
+    "c2-chacha": ("stream-ciphers/chacha", ["std", "rustcrypto_api", "no_simd", "simd"]),
+    "ppv-lite86": ("utils-simd/ppv-lite86", ["std", "simd", "no_simd"]),
+    "crypto-simd": ("utils-simd/crypto-simd", ["simd", "std", "packed_simd"]),
+    "blake-hash": ("hashes/blake", ["simd", "std"]),
+    "groestl-aesni": ("hashes/groestl", ["std"]),
+    "jh-x86_64": ("hashes/jh", ["std"]),
+    "threefish-cipher": ("block-ciphers/threefish", ["no_unroll"]),
+    "skein-hash": ("hashes/skein", []),
+    "ppv-null": ("utils-simd/ppv-null", []),
+}
+
+
+def lattice_points():
+    import itertools, re, os
+    pts = []
+    for crate, (d, feats) in LATTICE.items():
+        # the declared feature list is re-read from the manifest so that a feature added later is not missed
+        declared = list(feats)
+        try:
+            txt = open(os.path.join("/repo", d, "Cargo.toml")).read()
+            m = re.search(r"^\[features\]\s*$(.*?)(^\[|\Z)", txt, re.S | re.M)
+            if m:
+                for line in m.group(1).splitlines():
+                    k = line.split("=")[0].strip()
+                    if k and not k.startswith("#") and k != "default" and k not in declared:
+                        declared.append(k)
+        except OSError:
+            pass
+        for r in range(len(declared) + 1):
+            for sub in itertools.combinations(sorted(declared), r):
+                pts.append((crate, ",".join(sub)))
+    return pts
+
+
+def c20(drv, pid, tier, seed):
+    import os, subprocess, time
+    from concurrent.futures import ThreadPoolExecutor
+    t0 = time.time()
+    pts = lattice_points()
+    env = drv.clean_env()
+    env.pop("RUSTFLAGS", None)  # the repository's own .cargo/config.toml applies; verification guard OFF
+
+    def one(arg):
+        k, (crate, feats) = arg
+        e = dict(env)
+        e["CARGO_TARGET_DIR"] = os.path.join(drv.BUILD, "c20-%d" % (k % 4))
+        cmd = ["cargo", "check", "-p", crate, "--no-default-features", "--offline"] + (["--features", feats] if feats else [])
+        p = subprocess.run(cmd, cwd="/repo", env=e, stdout=subprocess.PIPE, stderr=subprocess.STDOUT, text=True)
+        return crate, feats, p.returncode, " ".join(cmd), p.stdout[-1500:]
+
+    # four target dirs => four cargo invocations can run side by side
+    buckets = [[], [], [], []]
+    for k, pt in enumerate(pts):
+        buckets[k % 4].append((k, pt))
+
+    def run_bucket(b):
+        return [one(x) for x in b]
+
+    with ThreadPoolExecutor(max_workers=4) as ex:
+        results = [r for rs in ex.map(run_bucket, buckets) for r in rs]
+    viol = []
+    table = []
+    for crate, feats, rc, cmd, out in sorted(results):
+        table.append(dict(crate=crate, features=feats or "(none)", status="ok" if rc == 0 else "FAILED"))
+        if rc != 0:
+            err = [l for l in out.splitlines() if l.startswith("error")]
+            viol.append(dict(sig="C20|build|%s|features=%s" % (crate, feats or "(none)"), case="cd /repo && " + cmd, config="lattice",
+                             detail="cargo check failed: " + (err[0] if err else out[-300:])))
+    nondefault = len([1 for c, f in pts]) - len(LATTICE)
+    extra = dict(lattice=table, lattice_points=len(pts), lattice_ok=len([1 for t in table if t["status"] == "ok"]),
+                 lattice_exhaustive=True, evaluations_add=len(pts), distinct_add=max(nondefault, 0),
+                 samples_add=["cargo check -p %s --no-default-features --features '%s'" % pts[len(pts) // 2], "cargo check -p %s --no-default-features --features '%s'" % pts[0]])
+    q = tier == "quick"
+    n = 400 if q else 8000
+    js = []
+    for cfg in ["std-rel", "std-dbg", "portable-rel", "nounroll-rel", "nostd-sse2", "nostd-avx2"] + ([] if q else ["portable-dbg", "nostd-ssse3", "nostd-sse41", "nostd-avx", "nounroll-dbg"]):
+        js += J(pid, cfg, 2, n)
+    for j in js:
+        j["args"]["seed"] = seed
+        j["args"]["tier"] = tier
+    return drv.run_jobs(pid, tier, seed, PROPS[pid], js, t0, extra_cov=extra, extra_viol=viol)
+
+
+CUSTOM = {"C20": c20}
